@@ -211,6 +211,24 @@ def main(modname, argv):
                         rc, out = fresh_replay(prop, path)
                         confirmed = (rc == 1 and 'VIOLATION property=%s' % prop in out)
                         v2 = v
+                    if not confirmed:
+                        # the first occurrence may owe its failure to what ran earlier in the same worker process (a
+                        # process-global cache in the code under test); look for an occurrence that fails on its own
+                        tagp = '-' + '-'.join(str(c) for c in cls[1:]).replace('@', '_at_').replace('/', '_').replace(':', '_')
+                        def _hist(v_):
+                            c_ = v_['desc'].get('case') if isinstance(v_.get('desc'), dict) else None
+                            return isinstance(c_, dict) and (c_.get('prelude') is not None or c_.get('history') is not None)
+                        cands = [o for o in occ[1:] if _hist(o[1])][:6] + [o for o in occ[1:] if not _hist(o[1])][:3]
+                        for i_o, v_o in cands:
+                            path_o = core.write_replay(prop, seed, i_o, v_o, tagp + '-unminimised')
+                            rc, out = fresh_replay(prop, path_o)
+                            if rc == 1 and 'VIOLATION property=%s' % prop in out:
+                                confirmed, path, v2 = True, path_o, v_o
+                                break
+                            try:
+                                os.remove(path_o)
+                            except OSError:
+                                pass
                 except Exception as e:
                     harness.append('fresh replay failed: %r' % (e,))
             v2 = dict(v2)
